@@ -1,4 +1,4 @@
 (* Extraction of the executable deadline model (trusted base: Extraction, ExtrOcamlBasic; N stays a Coq datatype). *)
 From Coq Require Import Extraction ExtrOcamlBasic.
 From DeadlineC Require Import Deadline.
-Extraction "dlmodel.ml" init step elapse result closed_by armed ws_upgrade ws_message http_accept http_response.
+Extraction "dlmodel.ml" init step elapse result closed_by armed ws_upgrade ws_message http_accept http_response client_do client_response client_response_pending.
